@@ -396,6 +396,11 @@ func (l *PartitionLog) uploadFlush(ctx context.Context, artifact *SegmentArtifac
 	})
 	if err := g.Wait(); err != nil {
 		l.mu.Lock()
+		// Nothing was committed: the drained batches go back in front of the
+		// buffer for the next flush. Dropping them would let the Flush of another
+		// producer, whose batch this flush had drained, find an empty buffer and
+		// report (and publish) records as durable that are in neither S3 nor memory.
+		l.buffer.Requeue(l.flushingBatches)
 		l.flushing = false
 		l.flushingBatches = nil
 		l.flushCond.Broadcast()
